@@ -666,9 +666,9 @@ theorem notifiedOf_snoc (c' caller newPid : Pid) (was : Bool) (l : List (Pid × 
 
 theorem cmdEff_handle {s : Sys} (h : RInv s) {R : Rules} (hR : R.Tame) {i : Wid} {c : Cmd} {rest : List Cmd}
     (hq : s.cmdQ i = c :: rest) :
-    CmdEff s (handleCmdWith R.emptyWake { s with cmdQ := upd s.cmdQ i rest } i c) i c rest := by
+    CmdEff s (handleCmdWith R { s with cmdQ := upd s.cmdQ i rest } i c) i c rest := by
   obtain ⟨h1, hc⟩ := h.popCmd hq
-  have r' := h1.handleCmd R.emptyWake hR i hc
+  have r' := h1.handleCmd R hR i hc
   generalize hs1 : ({ s with cmdQ := upd s.cmdQ i rest } : Sys) = s1 at r' h1
   have e_env : s1.env = s.env := by subst hs1; rfl
   have e_wk : s1.wk = s.wk := by subst hs1; rfl
@@ -777,7 +777,7 @@ theorem cmdEff_handle {s : Sys} (h : RInv s) {R : Rules} (hR : R.Tame) {i : Wid}
         rfl rfl (fun _ => rfl)
     · rename_i hany
       simp only [hany]
-      exact CmdEff.simple r' e_env e_cmdQ (hsame (hR _ a)) hevs0 e_sent e_app e_drop e_spawned e_notif
+      exact CmdEff.simple r' e_env e_cmdQ (hsame ((SameProcs.applyResults a rs _).trans (hR _ a))) hevs0 e_sent e_app e_drop e_spawned e_notif
         rfl rfl (fun _ => rfl)
   | getResult req p =>
     cases hx : (s1.wk i).procs p with
@@ -795,7 +795,7 @@ theorem cmdEff_handle {s : Sys} (h : RInv s) {R : Rules} (hR : R.Tame) {i : Wid}
         exact CmdEff.simple r' e_env e_cmdQ (hsame (SameProcs.of_eq rfl rfl)) hevs0 e_sent e_app e_drop e_spawned e_notif
           rfl rfl (fun _ => rfl)
 
-theorem DInv.cmdStep1 {s : Sys} (h : DInv s) {R : Rules} (hR : R.Tame) (i : Wid) : DInv (cmdStep1With R.emptyWake s i) := by
+theorem DInv.cmdStep1 {s : Sys} (h : DInv s) {R : Rules} (hR : R.Tame) (i : Wid) : DInv (cmdStep1With R s i) := by
   unfold cmdStep1With
   split
   · exact h
